@@ -87,6 +87,7 @@ def main(tier):
         return keys["k1"] if idx == 1 else keys["k2"]
 
     built = {}
+    levels_used = []
 
     def build_pipeline(pipe):
         """returns (archive path, key index) or raises; each prefix is built once"""
@@ -100,7 +101,9 @@ def main(tier):
             if c["key"]:
                 args += ["-p", keyfile(c["key"]) + ".pub"]
             if c["layers"] in ("compress", "both"):
-                args += ["-q", str((len(built) * 5) % 12)]
+                # "any choice of ... level": both ends of the range first, then the others in turn
+                levels_used.append([11, 0, 5, 1, 10, 3, 8, 6, 2, 9, 4, 7][len(levels_used) % 12])
+                args += ["-q", str(levels_used[-1])]
             #  takes 0..1 values: given last so that "no layer" does not swallow a file name
             rc, so, se = run(args + names + layer_args(c["layers"]))
         else:
